@@ -84,3 +84,17 @@ Example C13_inflate_small_buffers :
   | _ => False
   end.
 Proof. vm_compute. repeat split; reflexivity. Qed.
+
+(* the one-call use (how mz_uncompress drives the wrapper): Finish on a fresh object with the whole stream and an
+   output of more than the plaintext's length: MZ_STREAM_END, exactly the stream consumed, exactly the plaintext *)
+Theorem C13_inflate_finish_on_fresh_object_partial :
+  forall fmt cmf flg chunks last extra out_len,
+  cmf < 256 -> flg < 256 -> valid_header (Z.of_N cmf) (Z.of_N flg) = true ->
+  chunks_ok chunks -> bytes_ok last -> N.of_nat (length last) <= 65535 ->
+  let data := concat chunks ++ last in
+  let zl := zl_of fmt in
+  let stream := (if zl then [cmf; flg] else []) ++ stored_stream chunks last ++ (if zl then be32 (adler32 1 data) else []) in
+  N.of_nat (length data) < out_len -> out_len <= USIZE_MAX -> N.of_nat (length (stream ++ extra)) < 2 ^ 57 ->
+  exists r, inflate (is_new fmt) (stream ++ extra) out_len FL_FINISH = Ret r /\
+    sr_code r = MZ_STREAM_END /\ sr_in r = N.of_nat (length stream) /\ sr_out r = data.
+Proof. exact inflate_finish_fresh. Qed.
